@@ -182,6 +182,10 @@ krate::spawn(
 // ===================================================================== the arbiter thread (C09, C10)
 #[verifier::external_body]
 pub struct TokioRuntime { _p: () }
+/// runtime.rs default_tokio_runtime (NOT under contract: the flavour and drivers of the runtime are no listed property);
+/// a failure makes the callers `.expect()`-panic: documented
+#[verifier::external_body]
+pub fn default_tokio_runtime() -> (r: io::Result<TokioRuntime>) ensures r is Ok { unimplemented!() }
 /// crate::runtime::Runtime: `block_on(runner)` runs the arbiter's command loop until it ends (Stop received or every
 /// sender gone: unit rt, ArbiterRunner::poll)
 pub struct Runtime { pub rt: TokioRuntime }
@@ -334,6 +338,18 @@ Arbiter::in_new_system(r25_tls)
             && (sent_sys_cmd().1 matches SystemCommand::RegisterArbiter(id, h) && id == usize::MAX && is_hnd(final(r25_tls).handle.v, h.tx.chan())),
 //@insert before="SystemRunner {"
         assert(r24_trace == seq![0int, 1int]);   // [C09] registered, then the controller is started
+//@end
+
+//@extract file=actix-rt/src/system.rs item="impl System / fn new" ret=r props=C09,C10 name=system::new tls_state="CURRENT:current" tls_calls="Self::with_tokio_rt" closures=1
+//@replace pattern="crate::runtime::default_tokio_runtime()" rule=R15
+default_tokio_runtime()
+//@spec
+    ensures
+        // `System::new` is `with_tokio_rt` with the default runtime: the same wiring   [C09]
+        final(r25_tls).current.v matches Some(s) && s.sys_tx.chan() == spawned_ctrl().cmd_chan,
+        spawned_ctrl().stop_chan == r.stop_rx.chan(),
+        final(r25_tls).current.v matches Some(s) && sent_sys_cmd().0 == s.sys_tx.chan()
+            && (sent_sys_cmd().1 matches SystemCommand::RegisterArbiter(id, h) && id == usize::MAX && is_hnd(final(r25_tls).handle.v, h.tx.chan())),
 //@end
 }
 
